@@ -147,7 +147,8 @@ def main(argv=None):
             if cd.level == 'proof' and not args.native_only:
                 tasks.append((cd.id, cfg, 'sym', seed))
             else:
-                for k in range(cd.native_samples if cd.level == 'proof' else 1):
+                mult = 1 if args.tier == 'quick' else 4
+                for k in range(cd.native_samples * mult):
                     tasks.append((cd.id, cfg, 'native', seed + k))
     can = _canaries()
     if can:
